@@ -76,4 +76,15 @@ PROPS = {
         level_note="Trusted: Kani/CBMC; Form-M contract stand-ins for the coefficient tables (justified by units K6/K4).",
         not_decided=["sizes beyond 3x3", "SIMD back-ends"],
     ),
+    "C03": dict(
+        units=["G1", "G2", "G3", "G4", "G7", "K1", "K2", "K5", "K6", "K7", "A3", "T1", "G5a", "P"],
+        level="proof",
+        level_text="C03 is decided as the conjunction of the safety obligations of the units under contract: arithmetic overflow, division "
+                   "by zero, array bounds, unwrap, pointer validity of every unchecked access are obligations generated by Verus / CBMC for "
+                   "each unit; validation (G1-G3), the nearest index (G7), clip (K2), dispatch (K5) and the band arithmetic (T1, G5a) are "
+                   "complete proofs; window invariant, kernels, views and pipeline glue are bounded checks, reported separately.",
+        level_note="Scope: the functions under contract only (N5). SIMD kernels, NEON/WASM, rayon glue and the image-crate integration are not examined.",
+        not_decided=["whole-repository panic freedom (only the listed units)", "SIMD convolution kernels (outside C02's reach)", "NEON / WASM back-ends",
+                     "rayon scheduling", "sizes beyond the bounded harnesses for the pipeline glue"],
+    ),
 }
